@@ -151,6 +151,16 @@ impl Area for TextArea {
             if r.is_ok() != r2.is_ok() || sbuf.as_bytes() != w.as_slice() { fails.push(Failure { class: "entry-points-differ".into(), detail: format!("encode vs encode_utf8 differ: {}", line) }); }
             if let Ok(s3) = &r3 { if format!("{}{}", pre, s3).as_bytes() != w.as_slice() { fails.push(Failure { class: "entry-points-differ".into(), detail: format!("encode_to_string differs: {}", line) }); } }
             if !w.starts_with(pre.as_bytes()) { fails.push(Failure { class: "not-append-only".into(), detail: line.clone() }); }
+            // the bytes do not depend on how the writer takes them: a writer accepting 5 bytes per write call receives the same text,
+            // and a writer that stops taking bytes makes encode fail instead of silently truncating
+            { struct Chunky { got: Vec<u8>, max: usize, cap: usize }
+              impl std::io::Write for Chunky { fn write(&mut self, b: &[u8]) -> std::io::Result<usize> { let n = b.len().min(self.max).min(self.cap - self.got.len()); self.got.extend_from_slice(&b[..n]); Ok(n) } fn flush(&mut self) -> std::io::Result<()> { Ok(()) } }
+              let body = &w[pre.len()..];
+              let mut ch = Chunky { got: vec![], max: 5, cap: usize::MAX };
+              let rc = enc.encode(&mfs, &mut ch);
+              if rc.is_ok() != r.is_ok() || ch.got != body { fails.push(Failure { class: "entry-points-differ".into(), detail: format!("a writer taking 5 bytes per call received {} bytes (Ok = {}), a Vec received {} (Ok = {}); {}", ch.got.len(), rc.is_ok(), body.len(), r.is_ok(), line) }); }
+              if r.is_ok() && body.len() > 1 { let mut full = Chunky { got: vec![], max: usize::MAX, cap: body.len() - 1 }; if enc.encode(&mfs, &mut full).is_ok() { fails.push(Failure { class: "entry-points-differ".into(), detail: format!("a writer that is full after {} of {} bytes: encode returned Ok (silent truncation); {}", body.len() - 1, body.len(), line) }); } }
+              stats.hit("short-writer-checked"); }
             if std::str::from_utf8(&w).is_err() { fails.push(Failure { class: "not-utf8".into(), detail: line.clone() }); }
             stats.hit(if r.is_ok() { "encode:ok" } else { "encode:err" });
             for f in &fams { stats.hit(&format!("type:{}", f.ty)); }
